@@ -1466,8 +1466,30 @@ impl GRLParser {
     }
 
     fn parse_then_clause(&self, then_clause: &str) -> Result<Vec<ActionType>> {
-        let statements: Vec<&str> = then_clause
-            .split(';')
+        // Statements end at a ';' that is outside a string literal
+        let mut statements: Vec<&str> = Vec::new();
+        let mut quote: Option<char> = None;
+        let mut start = 0;
+        for (i, ch) in then_clause.char_indices() {
+            match quote {
+                Some(q) => {
+                    if ch == q {
+                        quote = None;
+                    }
+                }
+                None => match ch {
+                    '"' | '\'' => quote = Some(ch),
+                    ';' => {
+                        statements.push(&then_clause[start..i]);
+                        start = i + 1;
+                    }
+                    _ => {}
+                },
+            }
+        }
+        statements.push(&then_clause[start..]);
+        let statements: Vec<&str> = statements
+            .into_iter()
             .map(|s| s.trim())
             .filter(|s| !s.is_empty())
             .collect();
